@@ -209,6 +209,9 @@ def decode_inputs(ctx, kt, n_valid, with_tampers, with_struct, n_unstructured, n
                 inputs.append(b); labels.append(lab)
     for b in gens.unstructured(rng, n_unstructured):
         inputs.append(b); labels.append("unstructured")
+    if kt in ("ed", "comb", "k256"):
+        for b in gens.weak_ed_records(rng):
+            inputs.append(b); labels.append("ed25519_weak_key" if kt != "k256" else "other_scheme_only")
     return recs, inputs, labels
 
 
@@ -245,6 +248,11 @@ def check_C01(ctx):
 def check_C02(ctx):
     for kt in ["k256", "libsecp", "ed", "comb", "toy"]:
         recs, inputs, labels = decode_inputs(ctx, kt, ctx.scale(10, 120), 0, ctx.scale(10, 120), ctx.scale(40, 1000), 0)
+        # "a valid signature" is part of well-formedness: the shapes a signature field must not have
+        for i, r in enumerate(recs[:ctx.scale(3, 30)]):
+            for lab, b in gens.tampers(ctx.rng, ctx.oracle, r, recs[i + 1:] + recs[:i], 0):
+                if lab in ("der_sig", "sig_leading_zero_stripped", "wrong_length_sig", "high_s_twin", "zero_r", "r_plus_n", "pubkey_reencoded_unsigned"):
+                    inputs.append(b); labels.append(lab)
         cases = [["decode " + hx(b)] for b in inputs]
         for i in range(0, len(inputs), 7):
             cases.append(["parse " + hx(b"enr:" + gens.b64(inputs[i]))]); labels.append(labels[i] + "/text")
@@ -331,6 +339,8 @@ def check_C11(ctx):
         # Records that carry a key of BOTH schemes are excluded from the pairwise comparison: there the
         # single-scheme type and CombinedKey legitimately differ (precedence rule); the model decides those.
         for i, case in enumerate(cases):
+            if labels[i] in ("pubkey_hybrid", "pubkey_uncompressed_signed", "pubkey_reencoded_unsigned"):
+                continue  # 65-byte SEC1 encodings are outside the property (the two libraries differ on the hybrid form)
             if labels[i].startswith("both_keys") or labels[i] == "other_scheme_only":
                 if labels[i] == "other_scheme_only":
                     h, f = parse_line(per_kt[gen_kt][i])
@@ -464,6 +474,10 @@ def mon_C10(ctx):
                     r = ctx.oracle.q("secp_pk %s %s" % ("l" if kt != "libsecp" else "k", hx(v[2:]))).split()
                     if r[0] == "ok" and r[2] != f["pku"]:
                         out.append((i, "encode_uncompressed() differs from an independent derivation from the stored key"))
+                ved = pairs.get(b"ed25519")
+                if ved is not None and len(ved) == 33 and (kt == "ed" or (kt == "comb" and f.get("pk") == hx(ved[1:]))):
+                    if f["nid"] != hx(ctx.oracle.keccak(ved[1:])):
+                        out.append((i, "node id != keccak256 of the 32-byte ed25519 key stored in the record"))
                 if prev is not None and cmd.startswith("op") and first(h) == "ok" and f.get("pk") == prev.get("pk") and f["nid"] != prev["nid"]:
                     out.append((i, "node id changed under an update with the same key"))
         return out
@@ -708,7 +722,9 @@ def cross_scheme_cases(ctx, kt):
                    "op remove_insert c 0 none %s:%s" % (hx(b"q"), hx(b"w")), "op set_udp_socket c 0 %s 30303" % gens.rbytes(rng, 4).hex(),
                    "op set_public_key c 0 c", "op remove_udp4 c 0"]
             for op in (rng.sample(ops, 4) if ctx.quick else ops):
-                cases.append(head + [op, "op set_udp4 c 0 80"])
+                tail = rng.choice(["op set_udp4 c 0 80", "op remove_key a 0 %s" % hx(cc.entry), "op remove_insert a 0 %s none" % hx(cc.entry),
+                                   "op remove_key c 0 %s" % hx(a.entry), "op remove_insert a 0 %s %s:%s" % (hx(cc.entry), hx(b"q"), hx(b"z"))])
+                cases.append(head + [op, tail, "op set_tcp4 a 0 81"])
     return cases
 
 
@@ -766,6 +782,12 @@ def check_history_property(ctx):
             cases += cross_scheme_cases(ctx, kt)
         if pid in ("C05", "C08", "C14", "C09"):
             cases += builder_reuse_cases(ctx, kt)
+        if pid == "C10":
+            for r in gens.valid_records(ctx.rng, ctx.oracle, kt, ctx.scale(6, 60)):
+                cases.append(["decode " + hx(r["bytes"])])
+            if kt in ("ed", "comb"):
+                for b in gens.weak_ed_records(ctx.rng):
+                    cases.append(["decode " + hx(b)])
         if pid == "C14":
             ports = sorted(set(gens.PORT_POOL + [ctx.rng.randrange(65536) for _ in range(ctx.scale(120, 0))])) if ctx.quick else list(range(65536))
             if kt in ("k256", "ed") or ctx.quick:
@@ -882,6 +904,12 @@ def check_C12(ctx):
 
     for kt in ["k256", "libsecp", "ed", "comb", "toy"]:
         recs = gens.valid_records(ctx.rng, ctx.oracle, kt, ctx.scale(8, 150))
+        # records whose encoding ends in a zero byte (a decoder that pads with zeros would complete a truncated text)
+        for r in list(recs[:ctx.scale(3, 30)]):
+            pl = [kv for kv in r["pairs"] if kv[0] < b"zzz"] + [(b"zzz", rlp_str(gens.rbytes(ctx.rng, ctx.rng.randrange(1, 4)) + b"\x00" * ctx.rng.choice([1, 2])))]
+            if gens.enc_len(r["seq"], dict(pl), 16 if r["key"].scheme == "toy" else 64) <= 300:
+                b2 = record_bytes(ctx.oracle, r["key"], r["seq"], pl)[0]
+                recs.append({"bytes": b2, "key": r["key"], "seq": r["seq"], "pairs": pl})
         cases, labs = [], []
         for r in recs:
             eds = gens.text_edits(ctx.rng, r["bytes"])
@@ -992,7 +1020,7 @@ def check_C16(ctx):
         add("nodeid new " + pat.hex(), "new")
         h = pat.hex().encode()
         variants = [h, b"0x" + h, h.upper(), b"0x" + h.upper(), b"0X" + h, b"0x0x" + h, h[:-1], h + b"0", b"0x" + h[:-2], h[:10] + b"g" + h[11:],
-                    b" " + h, h + b" ", b"0x" + h[:63] + b"G", bytes(rng.choice([x, x.upper()] if isinstance(x, bytes) else [bytes([x]), bytes([x]).upper()]) [0] for x in h),
+                    b" " + h, h + b" ", b"\n" + h, h + b"\n", b"\t0x" + h, b"0x" + h + b"\r\n", "\u00a0".encode() + h, b"0x" + h + "\u2003".encode(), b" 0x" + h + b" ", b"0x" + h[:63] + b"G", bytes(rng.choice([x, x.upper()] if isinstance(x, bytes) else [bytes([x]), bytes([x]).upper()]) [0] for x in h),
                     b"", b"0x", h[:62], b"0x" + h + b"00", "é".encode() + h[2:], h.replace(b"a", b"A", 1)]
         for v in rng.sample(variants, ctx.scale(8, len(variants))):
             add("nodeid deser " + hx(v), "deser")
@@ -1017,7 +1045,7 @@ def check_C16(ctx):
                 out.append((0, "accessors do not return the bytes given"))
             if unhx(f["ser"]) != b'"0x' + x.encode() + b'"':
                 out.append((0, "JSON form is not 0x + 64 lowercase hex digits"))
-            if unhx(f["dbg"]) != b"0x" + x.encode():
+            if unhx(f["dbg"]) != b"0x" + x.encode() or unhx(f.get("dbgp", f["dbg"])) != b"0x" + x.encode():
                 out.append((0, "Debug is not the full 0x-hex"))
             if unhx(f["disp"]) != b"0x" + x.encode()[:4] + b".." + x.encode()[-4:]:
                 out.append((0, "Display is not the first and last two bytes"))
@@ -1055,6 +1083,16 @@ def check_C17(ctx):
     for n in list(range(0, 40)) + [63, 64, 65]:
         if n != 32:
             cases.append(["ckimport ed " + hx(gens.rbytes(rng, n))]); labs.append("ed_wrong_length")
+    for _ in range(ctx.scale(6, 100)):
+        sec = gens.rbytes(rng, 32)
+        r = ctx.oracle.q("pub ed " + sec.hex()).split()
+        if r[0] == "ok":
+            # the 64-byte "keypair" serialisation: the secret followed by its own public key
+            cases.append(["ckimport ed " + (sec + bytes.fromhex(r[1])).hex()]); labs.append("ed_keypair_64")
+        cases.append(["ckimport ed " + (sec + sec).hex()]); labs.append("ed_wrong_length")
+        # 32-byte secp256k1 secrets that happen to parse as other serialisations (ASN.1 DER ECPrivateKey, PKCS#8 prefixes)
+        for pre in (bytes.fromhex("301e0201010419"), bytes.fromhex("30200201010420")[:7], bytes.fromhex("3081d30201010420")[:8], bytes.fromhex("302e0201010420")[:7]):
+            cases.append(["ckimport secp " + (pre + gens.rbytes(rng, 32 - len(pre))).hex()]); labs.append("secp_der_like")
 
     def mon(kt, case, il):
         t = case[0].split()
